@@ -107,7 +107,7 @@ func TestC03(t *testing.T) {
 	dir := evid.TempDir(t)
 	nHist := r.N(1500, 20000)
 	cfg := ops.GenCfg{
-		Names:  []string{"a", "a", "b", "c/d\n", "", "_internal/x", "alerts/disk%20full", "t/acme%2Fprod", "100%", "pct%zz"},
+		Names: []string{"a", "a", "b", "c/d\n", "", "_internal/x", "alerts/disk%20full", "t/acme%2Fprod", "100%", "pct%zz"},
 		Values: [][]byte{[]byte(""), []byte("one"), []byte("two"), {0, 255, 254, '"', '\\'}, gzipOf("a certificate bundle, compressed by whoever stored it\n", 40), gzipOf("x", 1),
 			[]byte("eyJhbGciOiJIUzI1NiJ9.e30.c2ln"), []byte("-----BEGIN KEY-----\nQUJD\n-----END KEY-----\n"), []byte(`{"Value":"QUJD","Version":3}`), []byte("QUJD"), bytes.Repeat([]byte("compressible "), 200)},
 		Weights: map[ops.Kind]int{ops.List: 0, ops.Info: 1, ops.Get: 1, ops.GetVer: 1, ops.GetCond: 1,
